@@ -178,6 +178,16 @@ func cmdCheck(propFile, tier string) int {
 		if tier == "thorough" {
 			timeout = 90
 		}
+		noRetry = func(name string) bool {
+			for _, f := range findings {
+				if f.Kind == "finding" && f.Property == pf.ID && f.Obligation != "" && strings.HasSuffix(name, f.Obligation[strings.LastIndex(f.Obligation, "#")+1:]) && strings.Contains(f.Obligation, "#") {
+					if strings.HasPrefix(f.Obligation, name[:strings.Index(name+"#", "#")]) || strings.Contains(name, f.Obligation) {
+						return true
+					}
+				}
+			}
+			return false
+		}
 		solveAll(scratch, frs, timeout, tier == "thorough", 8)
 	}
 
@@ -256,6 +266,9 @@ func cmdCheck(propFile, tier string) int {
 	// bounded stand-ins
 	var bounded []map[string]interface{}
 	for _, b := range pf.Bounded {
+		if os.Getenv("GOVC_SKIP_BOUNDED") != "" { // development only: contract work against a scratch tree
+			continue
+		}
 		if b.Tier == "thorough" && tier != "thorough" {
 			continue
 		}
